@@ -239,12 +239,11 @@ P = {
         "strings, ignorable siblings, namespace prefixes, empty rows, style-only cells) outside the known classes, "
         "xlsx_sheet_model (encode sh) = range_of (logical sh) — tight bounding box, value at every absolute position, via "
         "from_sparse_spec and from_sparse_map; C01_encoding_independent; C01_target_normal_form, C01_sheet_type_of_folder, "
-        "C01_part_lookup_case_insensitive / _recased. Known classes GETTING_DATA and F30 with refutations. Tie: generated .xlsx "
+        "C01_part_lookup_case_insensitive / _recased. C01_xlsx_workbook_main / _worksheets_main (every legal package description: 1..n sheets of the four kinds, the accepted target spellings, any part-name casing and order: open_sheets finds the sheets in workbook order, worksheet_range name = range_of of that sheet, a chartsheet reads as the empty range); totality C01_no_panic_get_row_and_optional_column / _worksheet_range (every event list: neither Panic nor OutOfFuel). One known class F30 (rel:id prefix) behind a single switch, with refutation. Tie: generated .xlsx "
         "files (all encoding variations x sparse cell sets incl. the four corners and the Z/AA, AZ/BA, ZZ/AAA column edges, 1..n "
         "sheets, part-name case, target spellings, stored/deflated entries) through Xlsx::new + worksheet_range(_ref) + worksheets(), "
         "and an exhaustive column sweep through the A1 hook.",
-   note=TB + " PARTIAL: the workbook-level composition (open_sheets over an arbitrary legal package) has path-function theorems and a computed example, "
-        "tied by correspondence, but no general theorem; quick-xml tokenisation/unescaping, zip and str::parse::<f64> are outside the model; "
+   note=TB + " The rels / workbook.xml encoders emit no ignorable content between elements and no definedName (the reader model handles both; tie only); quick-xml tokenisation/unescaping, zip and str::parse::<f64> are outside the model; "
         "chunked text / CDATA / rich runs are C19's encoders.",
    technique="Coq proof (A1 arithmetic, cursor-invariant induction over rows/cells, reduction to from_sparse_spec) + extracted-model correspondence on real .xlsx files",
    design_ref="5/C01"),
@@ -298,7 +297,7 @@ def main():
 
 # properties whose model is being brought up to date with fix: commits that just landed in /repo (their check
 # reports the stale model as a broken correspondence until the resync is merged); emptied as the resyncs land
-STALE = {"C01", "C02", "C03", "C04", "C05", "C12", "C13", "C14", "C15", "C16", "C18"}
+STALE = {"C02", "C03", "C05", "C12", "C13", "C14", "C16", "C18"}
 STALE_REASON = ("temporarily not claimed: the model is being resynchronised with the C06 hardening fix: commits (Panic -> Err at "
                 "file-declared lengths / indices / offsets); until that is merged the check reports the stale model as a broken "
                 "model/code correspondence")
